@@ -135,7 +135,21 @@ fn decode(tape: &[u32], disk: DiskCfg) -> RangeCase {
         }
         let a = consts(&mut t);
         let b = consts(&mut t);
-        let (la, lb) = (key_lit(&key_ty, a), key_lit(&key_ty, b));
+        // bounds of an integer key also come in other numeric widths / forms
+        let bound = |t: &mut Tape, k: i64| -> String {
+            if matches!(key_ty.as_str(), "int" | "bigint" | "smallint") {
+                match t.pick(8) {
+                    0 => format!("cast({k} as bigint)"),
+                    1 => format!("cast({k} as smallint)"),
+                    2 => format!("{}", if k >= 0 { 3_000_000_000i64 + k } else { -3_000_000_000i64 + k }),
+                    3 => format!("{k}.5"),
+                    _ => key_lit(&key_ty, k),
+                }
+            } else {
+                key_lit(&key_ty, k)
+            }
+        };
+        let (la, lb) = (bound(&mut t, a), bound(&mut t, b));
         let range = match t.pick(12) {
             0 => format!("k = {la}"),
             1 => format!("k < {la}"),
